@@ -213,11 +213,14 @@ GOf(x, p, v)  == IF Has(x.wincons, v.cons) THEN p.wincons[IdxOf(x.wincons, v.con
 FfOf(x, p, v) == IF Has(x.wincons, v.cons) THEN p.wincons[IdxOf(x.wincons, v.cons)].ff ELSE 2000
 \* area with multiplier, 10^-6 m2
 QA(x, p, j) == BigProd2(x.windows[j].area, p.wins[j].mult)
+\* orientation class of a window in scope: that of its wall, by the specification's own tables (Classifiers.tla
+\* through the concretiser), not the class the indicators report
+WinOrient(x, j) == OrientOf(x.walls[IdxOf(x.walls, x.windows[j].wall)])
 \* gains of one window, 10^-20 kWh : F g (1 - ff) A mult H
 Gain(x, p, H, j) ==
   LET v == x.windows[j]  pv == p.wins[j] IN
   BigMulSmall(BigMulSmall(BigMulSmall(BigMulSmall(QA(x, p, j), FshOf(pv)), GOf(x, p, v)), 10000 - FfOf(x, p, v)),
-              H[pv.orient])
+              H[WinOrient(x, j)])
 QSeq(x, o) == SeqOfSet({ j \in QWins(x) : o = "all" \/ OrientOf(x.walls[IdxOf(x.walls, x.windows[j].wall)]) = o },
                        Len(x.windows))
 QGains(x, p, H, o) == BigSumSeq(QSeq(x, o), LAMBDA j : Gain(x, p, H, j))
@@ -237,7 +240,7 @@ QSolOk(x, p, g, H, qs) ==
      ELSE /\ MeanOk(qs.fshm, QW(x, p, "all", LAMBDA j : FshOf(p.wins[j])), A)
           /\ MeanOk(qs.gm,   QW(x, p, "all", LAMBDA j : GOf(x, p, x.windows[j])), A)
           /\ MeanOk(qs.ffm,  QW(x, p, "all", LAMBDA j : FfOf(x, p, x.windows[j])), A)
-          /\ BigApprox(BigMul(BigOf(qs.irrm), A), QW(x, p, "all", LAMBDA j : H[p.wins[j].orient]), BigMulSmall(A, 2), 30)
+          /\ BigApprox(BigMul(BigOf(qs.irrm), A), QW(x, p, "all", LAMBDA j : H[WinOrient(x, j)]), BigMulSmall(A, 2), 30)
   \* the per-orientation breakdown: present exactly for the classes that have windows, and adds up
   /\ \A n \in DOMAIN Orients :
         LET o == Orients[n]  Ao == QArea(x, p, o) IN
